@@ -148,7 +148,9 @@ fn algebra(run: &Run) {
             let mut r = fx.base.clone();
             for (i, p) in auth.iter().enumerate() {
                 if mask & (1 << i) != 0 {
-                    r.add_op(p.op.clone()).expect("authorised op enters");
+                    if let Err(e) = r.add_op(p.op.clone()) {
+                        run.violation("op-admission", "authorised-op-refused", format!("{} was refused by a fresh {perm:?} register: {e:?}", p.name), json!({"op": p.name, "perm": format!("{perm:?}")}));
+                    }
                 }
             }
             r
@@ -207,7 +209,9 @@ fn algebra(run: &Run) {
                     }
                     let mut crdt = RegisterCrdt::new(*fx.base.address());
                     for op in &seq {
-                        crdt.apply_op((*op).clone()).expect("apply");
+                        if let Err(e) = crdt.apply_op((*op).clone()) {
+                            run.violation("convergence", "apply-op-failed", format!("an accepted op could not be applied to the CRDT: {e:?}"), json!({"perm": format!("{perm:?}"), "mask": mask}));
+                        }
                     }
                     let got = crdt.read();
                     run.case(format!("crdt:{perm:?}:{mask}:{perm_idx:?}:{dup}").as_bytes(), ops.len() > 1);
@@ -583,13 +587,21 @@ fn limit(run: &Run) {
         for (ri, n) in prefill.iter().enumerate() {
             let mut r = base.clone();
             // replica 1 shares all but its last op with replica 0, so merges can cross the limit
+            let mut refused = None;
             for op in common.iter().take(*n - ri) {
-                r.add_op(op.clone()).expect("prefill");
+                if let Err(e) = r.add_op(op.clone()) {
+                    refused.get_or_insert(format!("{e:?}"));
+                }
             }
             if ri == 1 {
-                r.add_op(common[1023].clone()).expect("prefill last");
+                if let Err(e) = r.add_op(common[1023].clone()) {
+                    refused.get_or_insert(format!("{e:?}"));
+                }
             }
-            assert_eq!(r.ops().len(), *n);
+            if refused.is_some() || r.ops().len() != *n {
+                run.violation("op-admission", "refused-below-the-cap", format!("filling an open register to {n} entries (cap 1024) through add_op ended with {} entries ({refused:?})", r.ops().len()), json!({"prefill": n}));
+                return;
+            }
             regs.push(r);
         }
         let sys = LimitSys { base_addr: addr, regs, fresh: fresh.clone() };
